@@ -403,7 +403,8 @@ func (tx *Tx) buildSetIdx(bucket string, entry *Entry) {
 	}
 
 	if entry.Meta.Flag == DataDeleteFlag {
-		_ = tx.db.SetIdx[bucket].SRem(string(entry.Key), entry.Value)
+		// not Set.SRem: it refuses the empty member, which SAdd accepts and SPop returns
+		delete(tx.db.SetIdx[bucket].M[string(entry.Key)], string(entry.Value))
 	}
 
 	if entry.Meta.Flag == DataSetFlag {
